@@ -495,6 +495,10 @@ func init() {
 		var it []Item
 		for n := 0; n < 14; n++ {
 			if bandNStd[n] > 8 {
+				// 72 / 96-channel plans: last four channels and two stale indices symbolic (about 30 s per item)
+				if tier == "thorough" {
+					it = append(it, Item{PkgKey: "band", Func: "VerifC14_PlanBeyond", Shape: []int{n, 0, 2, 0}})
+				}
 				continue
 			}
 			for pos := 0; pos <= 2; pos++ {
@@ -507,4 +511,20 @@ func init() {
 		}
 		return it
 	})
+}
+
+// round 6, second batch: a decoded application-layer value the caller still holds is not rewritten by the next decode
+func init() {
+	keeps := func(tier string) []Item {
+		var it []Item
+		for _, s := range [][]int{{6, 6}, {11, 6}, {11, 11}, {16, 11}, {6, 1}, {21, 21}} {
+			it = append(it, Item{PkgKey: "multicastsetup", Func: "VerifC10_KeepsEarlier", Shape: s})
+		}
+		for _, s := range [][]int{{3, 3}, {6, 4}, {6, 6}, {10, 10}, {4, 2}} {
+			it = append(it, Item{PkgKey: "fragmentation", Func: "VerifC10_KeepsEarlier", Shape: s})
+		}
+		return it
+	}
+	addItems("C10", keeps)
+	addItems("C18", keeps)
 }
